@@ -606,3 +606,31 @@ def discarded_query_calls(repo, func, queries):
         if isinstance(v, ast.Call) and isinstance(v.func, ast.Attribute) and v.func.attr in queries:
             out.append((st, v.func.attr))
     return out
+
+
+def inloop_guards(cfg, nid, head_id):
+    """Branch outcomes (canonical spelling) that dominate node `nid` and were decided inside the loop whose header is `head_id`:
+    what *selects* the node among the iterations.  Used by the exact-selection rules ("for every item with P, and only those")."""
+    from sa.cfg import canon_set
+    return set(canon_set(cfg.guards_at(nid))) - set(canon_set(cfg.guards_at(head_id)))
+
+
+def positive(gset):
+    """Normalise `not X` True/False to X False/True so that sets of guards compare by meaning."""
+    out = set()
+    for k, v in gset:
+        if k.startswith("not ") and not (" and " in k or " or " in k):
+            out.add((k[4:], not v))
+        else:
+            out.add((k, v))
+    return out
+
+
+def exact_selection(chk, rule, what, f, cfg, node, head, want, text=None):
+    """Obligation: inside the loop, `node` is selected exactly by the outcomes in `want` (set of (test text, bool))."""
+    from sa.cfg import canon_fact
+    got = positive(inloop_guards(cfg, node.id, head.id))
+    want = {canon_fact(k, v) for k, v in want}
+    chk.ob(rule, what, got == positive(set(want)), f.where(node.ast), detail="selected by %s, expected exactly %s" % (sorted(got), sorted(want)),
+           construct=f.ident, text=text or ("selection of " + node.text(50)))
+    return got
